@@ -404,7 +404,7 @@ int main(int argc, char** argv)
     "of u*v for all in-space monomials), boundary force functional, discrete surface integral; UnitFilterAssembler on the full boundary (selected DOFs == "
     "DOFs whose node point lies on a boundary facet by a harness coordinate test, values == function values).";
   spec.bounds_quick = "tria/quad/tetra/hexa, mesh family of c16_core.hpp";
-  spec.bounds_thorough = "larger mesh family";
+  spec.bounds_thorough = "3D: larger mesh family (2D uses the full family in both tiers)";
   spec.assumptions = {
     "boundary checks in 3D only on meshes whose boundary faces are planar parallelograms/triangles (surface element polynomial)",
     "sign convention of the integral of the error function is not fixed by the documentation: absolute values are compared",
